@@ -16,6 +16,12 @@ correspondence : (a) raw kernels rs_direct_interpolation_pass1/2, rs_classical_i
 storage order  : the cases with a dense A are also run on non-canonical CSR / BSR storage of A and, separately, of the
                  strength matrices (rows permuted, diagonal first, descending; has_sorted_indices False or unset):
                  same models on the arrays as stored, same dense oracles.
+                 (d) extension E49 (`ext_c11x_*`): block_approx_ideal_restriction_pass2 (QR and GMRES local solves, raw kernel
+                 on padded arrays) vs the block row model C11XB.bairPass2 (index arrays exact, values 1e-9) and its assembled
+                 local systems vs D[N, N]; approx_ideal_restriction_pass2 with use_gmres vs the exact model rows; the local
+                 solves of both kernels vs the binary64 run of the dense_GMRES model (full length and truncated);
+                 injection_interpolation / one_point_interpolation on BSR, CSC and CSR input vs the composed wrapper models
+                 C11XA.apiInjection / apiOnePoint, array for array.
 search         : every P / R returned by the real code is judged by an independent dense NumPy/Fraction oracle
                  of the property itself (identity rows, support, row sums, published formulas (direct, eq. (8),
                  eq. (9)), one-point / injection structure, identity block and (R A)[i, j] = 0 for AIR incl. BSR
@@ -50,23 +56,40 @@ META = {
             'diagonal first / descending, has_sorted_indices truthfully False or left for SciPy to determine, a fresh object per '
             'public call; the exhaustive small splittings run in both a canonical and a non-canonical storage. The dense oracles '
             'judge these cases exactly as the canonical ones',
-    'search_only': ['local_air on BSR input and with GMRES local solves (maxiter >= local size): judged by the dense oracle '
-                    '(identity block, (R A) = 0 on the neighbourhood within 1e-8) only, no Lean model',
-                    'one_point / injection on BSR and CSC input, local_air on CSC input: dense oracle only',
+    'search_only': ['the public function local_air on BSR / CSC input (strength recomputation + kernels + eliminate_zeros as one '
+                    'call) is judged by the dense oracle (identity block, (R A) = 0 on the neighbourhood within 1e-8) only; its '
+                    'kernels block_approx_ideal_restriction_pass2 / approx_ideal_restriction_pass2 with QR and GMRES local solves '
+                    'have Lean models and theorems (extension E49, below)',
+                    'dense_GMRES with maxiter < local size (truncated; the result is not the exact local solve and the property '
+                    'does not speak about it): compared with the binary64 run of the model (correspondence) only',
                     'tie-break of one-point interpolation (first strongest C-neighbour) and the storage order inside rows: '
                     'compared with the models (correspondence) but not part of the property oracle',
                     'direct interpolation on rows with positive off-diagonals (positive/negative splitting of the formula): '
                     'structure by theorem, values by correspondence only (the property states formulas for M-matrices)'],
-    'partial': ['air_row_spec is about the model row with an exact, verified local solve; that the least-squares / GMRES solve of '
-                'the code is exact is a hypothesis checked per instance (|R - R_exact| <= 1e-9 relative on strictly diagonally '
-                'dominant local blocks)',
+    'partial': ['air_row_spec / block_air_row_spec are about the model row with exact, verified local solves; '
+                'air_row_of_exact_solve / block_air_row_of_exact_solves: the verification can only fail when a local system has no '
+                'exact solution (or, blocks, the 1e-15 drop test drops a non-zero). That the QR / least-squares solve of the code is '
+                'exact is a hypothesis checked per instance (|R - R_exact| <= 1e-9 relative on strictly diagonally dominant local '
+                'blocks). For the GMRES solve it is a theorem in exact arithmetic (extension E49): dense_gmres_exact -- the '
+                'executable model of dense_GMRES (krylov.h; Arnoldi/MGS loop, Givens sweep after the loop, upper_tri_solve, '
+                'diagonal scaling, n = 1 shortcut), over an ordered field with an exact square root, run with maxiter = 0 or >= n '
+                'returns x with A x = b provided NoBreakdown (right-hand side not small, no break before the last Arnoldi pass, '
+                'no small pivot; all stated on the model states; satisfiable: rot_no_breakdown over the reals); air_row_of_gmres '
+                'composes it with the scalar AIR row. Real arithmetic only; the composition with the BLOCK row is in two steps '
+                '(dense_gmres_exact gives exact solves over K, block_air_exact_solve_annihilates is stated over Rat); binary64 '
+                'rounding is covered by the correspondence run (model on binary64 vs the kernels), not by theorems',
+                'one_point_interpolation / injection_interpolation on BSR, CSC and CSR input are composed wrapper models '
+                '(C11XA.apiOnePoint / apiInjection: format dispatch, csc_tocsr model at entry, kernel model, identity blocks, SciPy '
+                'prune) compared array for array on every run; theorems: api_injection_any_format (dense meaning for every format), '
+                'api_one_point_kronecker + api_one_point_bsr_index_arrays (P = P_scalar (x) I on the index arrays '
+                'one_point_array_refines is about), csc_entry_same_matrix. local_air itself is not composed',
                 'the array models of the kernels are proved to refine the proof-side operators (extension E6) and the public '
                 'functions direct_interpolation / classical_interpolation (theta None or given) are one composed model each, '
                 'SciPy glue included, proved against directP / classicalP / classicalModP (extension E30, api_*_end_to_end) '
                 'for canonical A and C, columns below n and a strength matrix inside the non-zero pattern of A; weights are '
                 'related wherever the kernel does not divide by zero (the *_guard_defined theorems say when that is); '
                 'non-canonical input of the public functions (SciPy general multiply branch) has dense-meaning theorems only '
-                '(glue_multiply_dense), one_point / injection / local_air wrappers are not composed'],
+                '(glue_multiply_dense); the local_air wrapper is not composed'],
     'assumptions': ['exact-field model: values compared within 1e-9 relative on well-scaled small-integer inputs',
                     'the 1e-15 relative drop test of rs_classical_interpolation_pass2 never drops a non-zero coupling '
                     '(hypothesis hkeep of the row-sum theorems; true for the generated inputs, whose non-zero couplings '
@@ -75,6 +98,16 @@ META = {
                     'a non-zero coupling to a strong C-point of the row (hypothesis hinner = the classical common-C '
                     'condition, finding #20); row sums of all routines only on rows with at least one strongly connected C-point',
                     'strength matrices inside the pattern of A',
+                    'block AIR model: the 1e-15 drop test of block_approx_ideal_restriction_pass2 is part of the model (eps '
+                    'passed exactly); the generated blocks have integer entries, no exact solution entry lies in (0, 1e-15]',
+                    'dense_GMRES correspondence: the binary64 run of the model performs the operations of the C++ one for one '
+                    '(observed difference 0); accepted within 1e-9 relative; a run in which a stored subdiagonal entry H[j+1,j] is '
+                    'below 1e-5 of the largest one (Krylov space exhausted up to rounding, not detected by the absolute 1e-12 '
+                    'test of the code) amplifies last-bit differences without bound and is counted as a skipped near-threshold '
+                    'decision if it disagrees',
+                    'rows computed with GMRES local solves are compared with the exact model rows within 1e-6 relative (QR: 1e-9): '
+                    'after an undetected exhaustion of the Krylov space dense_GMRES is accurate to about 1e-8 only; the dense '
+                    'oracle still demands (R A) = 0 within 1e-8 on those rows',
                     'AIR: (R A)[i, j] = 0 is checked on the documented neighbourhood of row i (strongly connected F-points '
                     'within `degree`), which contains the pattern of the returned row (local_air eliminates zeros)'],
     'trusted_extra': ['Driver/C11.lean strengthWithA / dropZeros (ops c11_api_*): driver-local second opinion only, written for canonical '
@@ -560,16 +593,16 @@ def judge_air(A, M, split, R, degree, tol=AIR_TOL, bs=1):
 _ERR = [0.0, 0]          # largest relative model/implementation difference seen, rows skipped as non-finite
 
 
-def val_ok(tok, x):
+def val_ok(tok, x, tol=None):
     if tok == 'inf':
         return not np.isfinite(x)
     if not np.isfinite(x):
         return False
     t = Fr(tok)
     d = abs(t - Fr(float(x)))
-    if d:
+    if d and tol is None:
         _ERR[0] = max(_ERR[0], float(d / (1 + abs(t))))
-    return d <= Fr(TOL) * (1 + abs(t))
+    return d <= Fr(TOL if tol is None else tol) * (1 + abs(t))
 
 
 def cmp_arrays(reply, pp, pj, px):
@@ -610,7 +643,7 @@ def parse_rows(reply):
     return out
 
 
-def cmp_rows(reply, rows, skip_nonfinite=True, unordered=False):
+def cmp_rows(reply, rows, skip_nonfinite=True, unordered=False, tol=None):
     """proof-side rows (exact, x/0 = 0 convention) against implementation rows; rows where the code produced
     inf/nan are outside the proof-side model (the array model must say `inf` there) and skipped. unordered: the model
     was fed another storage order of the same matrices -- compare the rows as dense meanings (sorted by column)"""
@@ -629,7 +662,7 @@ def cmp_rows(reply, rows, skip_nonfinite=True, unordered=False):
         if len(mr) != len(ir):
             return False
         for (c1, t), (c2, w) in zip(mr, ir):
-            if c1 != c2 or not val_ok(t, w):
+            if c1 != c2 or not val_ok(t, w, tol):
                 return False
     return True
 
@@ -999,7 +1032,7 @@ def interp_case(ctx, B, A, M, split, tags, S=None, Acsr=None, api=True, onept_va
     except Exception as ex:
         viol(f'injection_interpolation raised {type(ex).__name__}: {ex}', routine='api_injection')
     # other sparse formats are converted to CSR by injection / one-point: same operator expected
-    if ctx.evaluations % 7 == 0:
+    if ctx.evaluations % 7 == 0 or 'replay' in tags:
         reg('api_formats')
         try:
             Acsc = sp.csc_array(Acsr)
@@ -1316,7 +1349,20 @@ def air_bsr_case(ctx, A, split, theta, degree, bs, layout=None, B=None):
 # extension E49: block AIR kernel, BSR / CSC wrappers, dense_GMRES -- Lean models (ops ext_c11x_*)
 # ------------------------------------------------------------------------------------------------
 
-GM_TOL = 1e-9            # dense_GMRES model (binary64, same operations up to b/normb vs (1/normb)*b) vs the code
+GM_TOL = 1e-9            # dense_GMRES model (binary64, operation for operation) vs the code
+GM_ROW_TOL = 1e-6        # rows computed with GMRES local solves vs the exact rows of the model: dense_GMRES tests breakdown with
+#                          the absolute threshold 1e-12 and keeps iterating on rounding noise when the Krylov space is exhausted
+#                          earlier; its result is then accurate to about 1e-8 only (the dense oracle judges (R A) = 0 at 1e-8)
+GM_NEAR = 1e-5           # a stored subdiagonal entry below GM_NEAR * (largest one) = Krylov space exhausted up to rounding
+
+
+def e49_rng(*parts):
+    """own random stream of the E49 additions, derived from the case: the stream of the other parts of this check is
+    exactly what it was before the extension"""
+    h = hashlib.sha1()
+    for q in parts:
+        h.update(q if isinstance(q, bytes) else repr(q).encode())
+    return np.random.default_rng(int.from_bytes(h.digest()[:8], 'little'))
 
 
 def _bits(x):
@@ -1356,7 +1402,7 @@ def _show_p(P):
     return f'{P.shape};{enc_ints(P.indptr)};{enc_ints(P.indices[:nnz])};{np.asarray(P.data).ravel().tolist()}'[:3000]
 
 
-def cmp_brows(reply, rows):
+def cmp_brows(reply, rows, tol=None):
     """reply of ext_c11x_bair2 vs the block rows [(col, flat block)] of the kernel"""
     if reply == 'singular':
         return False
@@ -1369,21 +1415,37 @@ def cmp_brows(reply, rows):
         for ent, (c, blk) in zip(mr, ir):
             col, vals = ent.split(':')
             toks = vals.split('|')
-            if int(col) != c or len(toks) != len(blk) or not all(val_ok(t, x) for t, x in zip(toks, blk)):
+            if int(col) != c or len(toks) != len(blk) or not all(val_ok(t, x, tol) for t, x in zip(toks, blk)):
                 return False
     return True
 
 
+_GM = {'ctx': None, 'max': 0.0}
+
+
 def cmp_gmres(reply, x):
-    if reply == 'bad-size':
+    """reply 'x;trace' of ext_c11x_gmres vs the local solve of the kernel. When the run normalised a vector of rounding
+    noise (a stored subdiagonal entry tiny against the others: Krylov space exhausted, not detected by the 1e-12 test)
+    the iteration amplifies last-bit differences without bound: such runs are counted as skipped near-threshold decisions
+    when they disagree"""
+    if reply == 'bad-size' or ';' not in reply:
         return False
-    m = _unbits(reply)
-    if len(m) != len(x) or not np.all(np.isfinite(m)) or not np.all(np.isfinite(x)):
+    xs, tr = reply.split(';')
+    m = _unbits(xs)
+    if len(m) != len(x) or not np.all(np.isfinite(x)):
         return False
-    d = np.abs(m - x) / (1 + np.abs(x))
-    if len(d):
-        _ERR[0] = max(_ERR[0], float(min(d.max(), TOL)))
-    return bool(np.all(d <= GM_TOL))
+    d = np.abs(m - x) / (1 + np.abs(x)) if np.all(np.isfinite(m)) else np.array([np.inf])
+    if np.all(d <= GM_TOL):
+        if len(d):
+            _GM['max'] = max(_GM['max'], float(d.max()))
+        return True
+    h = np.abs(_unbits(tr))
+    h = h[h > 0]
+    if len(h) and h.min() < GM_NEAR * h.max():
+        if _GM['ctx'] is not None:
+            _GM['ctx'].near_skipped += 1
+        return True
+    return False
 
 
 def gmres_line(Aloc, b, maxiter, pc):
@@ -1397,14 +1459,15 @@ def air_gmres_kernel(ctx, B, A, Acsr, C, Mm, split, cpts, degree, case0, nontriv
     from pyamg import amg_core
     n = A.shape[0]
     nc = len(cpts)
-    rng = ctx.np_rng
+    rng = e49_rng(b'air_gmres', A.tobytes(), split.tobytes(), degree)
+    _GM['ctx'] = ctx
     rp = np.full(nc + 1, -7, dtype=np.int32)
     amg_core.approx_ideal_restriction_pass1(rp, C.indptr, C.indices, cpts, split, degree)
     nnz = max(int(rp[-1]), 0)
     sizes = [int(rp[r + 1] - rp[r] - 1) for r in range(nc)]
     full = max(sizes + [0]) + 1
     for pc in (1, 0):
-        for maxiter in ((0, full, int(rng.integers(1, 3))) if pc else (full,)):
+        for maxiter in ((0, full, max(1, min(full - 2, int(rng.integers(1, 3))))) if pc else (full,)):
             exact = maxiter == 0 or maxiter >= full - 1
             ctx.case(key=_key('air_k_gmres', A.tobytes(), split.tobytes(), degree, C.indptr.tobytes(), C.indices.tobytes(), pc, maxiter),
                      nontrivial=nontriv)
@@ -1421,7 +1484,7 @@ def air_gmres_kernel(ctx, B, A, Acsr, C, Mm, split, cpts, degree, case0, nontriv
             rows = csr_rows(nc, rp, rj[:nnz], rx[:nnz])
             if exact:
                 B.add('c11_air2(gmres)', f'c11_air2 {_hdr(Acsr)} {_pat0(C)} {enc_ints(cpts)} {enc_ints(split)} {degree}',
-                      lambda o, r=rows: cmp_rows(o, r, False), cs, str(rows)[:3000])
+                      lambda o, r=rows: cmp_rows(o, r, False, tol=GM_ROW_TOL), cs, str(rows)[:3000])
                 Rd = np.zeros((nc, n))
                 for r, row in enumerate(rows):
                     for c, v in row:
@@ -1446,7 +1509,8 @@ def air_bsr_kernels(ctx, B, Ab, D, M, split, degree, bs, case0):
     system of the model vs D[N, N]; the GMRES local solves vs the dense_GMRES model"""
     from pyamg import amg_core
     from pyamg.strength import classical_strength_of_connection
-    rng = ctx.np_rng
+    rng = e49_rng(b'bair', D.tobytes(), split.tobytes(), degree, bs)
+    _GM['ctx'] = ctx
     n = M.shape[0]
     cpts = _i32(np.where(split == 1)[0])
     nc = len(cpts)
@@ -1470,7 +1534,7 @@ def air_bsr_kernels(ctx, B, Ab, D, M, split, degree, bs, case0):
     ax = np.ascontiguousarray(np.asarray(Ab.data, dtype=float)).ravel()
     hdrA = f'{bs} {enc_ints(Ab.indptr)} {enc_ints(Ab.indices)} {enc_rats(ax)}'
     line = f'ext_c11x_bair2 {enc_rat(EPS)} {hdrA} {_pat(C)} {enc_ints(cpts)} {enc_ints(split)} {degree}'
-    for ug, pc, maxiter in ((0, 1, 10), (1, 1, full), (1, 0, 0), (1, 1, int(rng.integers(1, 3)))):
+    for ug, pc, maxiter in ((0, 1, 10), (1, 1, full), (1, 0, 0), (1, 1, max(1, min(full - 2, int(rng.integers(1, 4)))))):
         exact = (not ug) or maxiter == 0 or maxiter >= full - 1
         ctx.case(key=_key('bair_k', D.tobytes(), split.tobytes(), theta, degree, bs, ug, pc, maxiter, Ab.indices.tobytes()),
                  nontrivial=nontriv)
@@ -1486,7 +1550,8 @@ def air_bsr_kernels(ctx, B, Ab, D, M, split, degree, bs, case0):
             return
         rows = [[(int(rj[k]), rx[k * b2:(k + 1) * b2].copy()) for k in range(int(rp[r]), int(rp[r + 1]))] for r in range(nc)]
         if exact:
-            B.add('ext_c11x_bair2', line, lambda o, r=rows: cmp_brows(o, r), cs, str([[(c, b.tolist()) for c, b in r] for r in rows])[:3000])
+            B.add('ext_c11x_bair2', line, lambda o, r=rows, tl=(GM_ROW_TOL if ug else None): cmp_brows(o, r, tl), cs,
+                  str([[(c, b.tolist()) for c, b in r] for r in rows])[:3000])
             Rd = np.zeros((nc * bs, n * bs))
             for r, row in enumerate(rows):
                 for c, blk in row:
@@ -1781,6 +1846,7 @@ def run(ctx):
             part_air(ctx, 5000, 20, 600)
             part_rs2(ctx, 3000, 16)
             part_glue(ctx, 4000, 30)
+    ctx.features['e49_gmres_model_vs_code_max_rel_diff'] = _GM['max']
 
 
 def search(ctx):
@@ -1830,6 +1896,10 @@ def _replay(ctx, data):
         Bn = np.array([[np.abs(D[i * bs:(i + 1) * bs, j * bs:(j + 1) * bs]).max() for j in range(n)] for i in range(n)])
         M = strength_mask(Bn, case['theta'], 'abs')
         ug, pc = case.get('use_gmres', False), case.get('precondition', True)
+        if case.get('raw'):
+            air_bsr_kernels(ctx, B, Ab, D, M, _i32(case['split']), case['degree'], bs,
+                            {**{k: case[k] for k in ('kind', 'D', 'split', 'theta', 'degree', 'bs') if k in case},
+                             'layout': case.get('layout')})
         R = IP.local_air(Ab, _i32(case['split']), theta=case['theta'], norm='abs', degree=case['degree'],
                          use_gmres=ug, maxiter=50, precondition=pc)
         e = judge_air(D, M, _i32(case['split']), dense(R), case['degree'], bs=bs)
